@@ -1,2 +1,179 @@
 import Dbg.Model.Export
-import Dbg.Model.CompressGraph
+import Dbg.Spec.C03
+/-! # C20 — Exports and persistence are faithful
+
+Proved for the model of the GFA export (after the repair of D6): every `L` record written for a node is one of the
+edges reported from the corresponding side of that node (soundness), and on a graph whose edge lists are symmetric
+every adjacency — between different nodes, a circular self-link, and hairpin self-links on either side — is
+written at least once (completeness).  The JSON text is compared verbatim with the model and parsed with
+`serde_json` by the harness; serde round trips are tested, not proved (derived code is outside the model). -/
+namespace Export
+open Compress (Seq Node)
+open Walk (Dir)
+open Graph
+variable {D : Type}
+
+/-- side of the source node a record leaves from -/
+def GfaLink.side (l : GfaLink) : Dir := if l.plus then .R else .L
+
+/-- **GFA soundness.** Every link written for node `id` is an adjacency of the graph, reported from the side it names. -/
+theorem gfa_link_sound (g : G D) (id : Nat) (ls : List GfaLink) (h : nodeLinks g id = some ls) (l : GfaLink) (hl : l ∈ ls) :
+    l.src = id ∧ ∃ es f, findEdges g id l.side = some es ∧ (l.dst, l.toSide, f) ∈ es := by
+  unfold nodeLinks at h
+  cases hL : findEdges g id .L with
+  | none => simp [hL] at h
+  | some le =>
+    cases hR : findEdges g id .R with
+    | none => simp [hL, hR] at h
+    | some re =>
+      simp only [hL, hR, Option.some.injEq] at h
+      subst h
+      rcases List.mem_append.mp hl with h1 | h1
+      · obtain ⟨e, he, rfl⟩ := List.mem_map.mp h1
+        exact ⟨rfl, le, e.2.2, by simp [GfaLink.side, hL], (List.mem_filter.mp he).1⟩
+      · obtain ⟨e, he, rfl⟩ := List.mem_map.mp h1
+        exact ⟨rfl, re, e.2.2, by simp [GfaLink.side, hR], (List.mem_filter.mp he).1⟩
+
+/-- all records of the export -/
+def allLinks (g : G D) : Option (List GfaLink) := ((List.range g.nodes.length).mapM (nodeLinks g)).map List.flatten
+
+/-- the edge lists are symmetric: if `(v, s)` is reported from side `d` of `u`, then `(u, d)` is reported from side `s` of `v` -/
+def EdgeSym (g : G D) : Prop :=
+  ∀ u d v s f es, findEdges g u d = some es → (v, s, f) ∈ es →
+    ∃ es' f', findEdges g v s = some es' ∧ (u, d, f') ∈ es'
+
+/-- a record for the adjacency between port `(u,d)` and port `(v,s)`, written from either end -/
+def Listed (ls : List GfaLink) (u : Nat) (d : Dir) (v : Nat) (s : Dir) : Prop :=
+  (∃ l ∈ ls, l.src = u ∧ l.side = d ∧ l.dst = v ∧ l.toSide = s) ∨ (∃ l ∈ ls, l.src = v ∧ l.side = s ∧ l.dst = u ∧ l.toSide = d)
+
+theorem mem_nodeLinks_left (g : G D) (id : Nat) (ls : List GfaLink) (h : nodeLinks g id = some ls)
+    (es : List Edge) (he : findEdges g id .L = some es) (e : Edge) (hm : e ∈ es) (hge : e.1 ≥ id) :
+    (⟨id, false, e.1, e.2.1⟩ : GfaLink) ∈ ls := by
+  unfold nodeLinks at h
+  cases hR : findEdges g id .R with
+  | none => simp [he, hR] at h
+  | some re =>
+    simp only [he, hR, Option.some.injEq] at h
+    subst h
+    exact List.mem_append_left _ (List.mem_map.mpr ⟨e, List.mem_filter.mpr ⟨hm, by simpa using hge⟩, rfl⟩)
+
+theorem mem_nodeLinks_right (g : G D) (id : Nat) (ls : List GfaLink) (h : nodeLinks g id = some ls)
+    (es : List Edge) (he : findEdges g id .R = some es) (e : Edge) (hm : e ∈ es) (hc : e.1 > id ∨ (e.1 = id ∧ e.2.1 = .R)) :
+    (⟨id, true, e.1, e.2.1⟩ : GfaLink) ∈ ls := by
+  unfold nodeLinks at h
+  cases hL : findEdges g id .L with
+  | none => simp [hL] at h
+  | some le =>
+    simp only [hL, he, Option.some.injEq] at h
+    subst h
+    exact List.mem_append_right _ (List.mem_map.mpr ⟨e, List.mem_filter.mpr ⟨hm, by simpa using hc⟩, rfl⟩)
+
+theorem mapM_some_mem {α β : Type} (f : α → Option β) :
+    ∀ (l : List α) (r : List β), l.mapM f = some r → ∀ x ∈ l, ∃ y ∈ r, f x = some y := by
+  intro l
+  induction l with
+  | nil => intro r _ x hx; simp at hx
+  | cons a t ih =>
+    intro r h x hx
+    rw [List.mapM_cons] at h
+    cases hfa : f a with
+    | none => simp [hfa] at h
+    | some b =>
+      cases ht : t.mapM f with
+      | none => simp [hfa, ht] at h
+      | some bs =>
+        simp only [hfa, ht, Option.bind_eq_bind, Option.bind_some, Option.pure_def, Option.some.injEq] at h
+        subst h
+        rcases List.mem_cons.mp hx with rfl | hx'
+        · exact ⟨b, by simp, hfa⟩
+        · obtain ⟨y, hy, e⟩ := ih bs ht x hx'
+          exact ⟨y, by simp [hy], e⟩
+
+theorem mem_allLinks (g : G D) (all : List GfaLink) (h : allLinks g = some all) (id : Nat) (hid : id < g.nodes.length)
+    (ls : List GfaLink) (hn : nodeLinks g id = some ls) (l : GfaLink) (hl : l ∈ ls) : l ∈ all := by
+  unfold allLinks at h
+  cases hm : (List.range g.nodes.length).mapM (nodeLinks g) with
+  | none => simp [hm] at h
+  | some lss =>
+    simp only [hm, Option.map_some, Option.some.injEq] at h
+    subst h
+    obtain ⟨y, hy, e⟩ := mapM_some_mem (nodeLinks g) _ lss hm id (List.mem_range.mpr hid)
+    rw [hn] at e
+    simp only [Option.some.injEq] at e
+    subst e
+    exact List.mem_flatten.mpr ⟨ls, hy, hl⟩
+
+/-- edges are only reported to existing nodes -/
+def EdgesInRange (g : G D) : Prop :=
+  ∀ u d es, findEdges g u d = some es → ∀ e ∈ es, e.1 < g.nodes.length
+
+/-- **GFA completeness.** On a graph with symmetric edge lists every adjacency — between two nodes, a circular
+    self-link, a hairpin self-link on the left or on the right side — is written at least once. -/
+theorem gfa_links_complete (g : G D) (hsym : EdgeSym g) (hrange : EdgesInRange g) (all : List GfaLink) (h : allLinks g = some all)
+    (u : Nat) (d : Dir) (v : Nat) (s : Dir) (f : Bool) (es : List Edge) (hu : u < g.nodes.length)
+    (he : findEdges g u d = some es) (hm : (v, s, f) ∈ es) : Listed all u d v s := by
+  have hv : v < g.nodes.length := hrange u d es he (v, s, f) hm
+  have nl : ∀ id, id < g.nodes.length → ∃ ls, nodeLinks g id = some ls := by
+    intro id hid
+    unfold allLinks at h
+    cases hmm : (List.range g.nodes.length).mapM (nodeLinks g) with
+    | none => simp [hmm] at h
+    | some lss =>
+      obtain ⟨y, _, e⟩ := mapM_some_mem (nodeLinks g) _ lss hmm id (List.mem_range.mpr hid)
+      exact ⟨y, e⟩
+  obtain ⟨lsu, hlu⟩ := nl u hu
+  obtain ⟨lsv, hlv⟩ := nl v hv
+  -- the record written from `u`'s side, when the filter admits it
+  have fromU : (d = .L → v ≥ u → Listed all u d v s) ∧ (d = .R → (v > u ∨ (v = u ∧ s = .R)) → Listed all u d v s) := by
+    constructor
+    · intro hd hge
+      subst hd
+      have := mem_nodeLinks_left g u lsu hlu es he (v, s, f) hm hge
+      exact Or.inl ⟨_, mem_allLinks g all h u hu lsu hlu _ this, rfl, by simp [GfaLink.side], rfl, rfl⟩
+    · intro hd hc
+      subst hd
+      have := mem_nodeLinks_right g u lsu hlu es he (v, s, f) hm hc
+      exact Or.inl ⟨_, mem_allLinks g all h u hu lsu hlu _ this, rfl, by simp [GfaLink.side], rfl, rfl⟩
+  -- the reciprocal edge, reported from `v`
+  obtain ⟨es', f', he', hm'⟩ := hsym u d v s f es he hm
+  have fromV : (s = .L → u ≥ v → Listed all u d v s) ∧ (s = .R → (u > v ∨ (u = v ∧ d = .R)) → Listed all u d v s) := by
+    constructor
+    · intro hs hge
+      subst hs
+      have := mem_nodeLinks_left g v lsv hlv es' he' (u, d, f') hm' hge
+      exact Or.inr ⟨_, mem_allLinks g all h v hv lsv hlv _ this, rfl, by simp [GfaLink.side], rfl, rfl⟩
+    · intro hs hc
+      subst hs
+      have := mem_nodeLinks_right g v lsv hlv es' he' (u, d, f') hm' hc
+      exact Or.inr ⟨_, mem_allLinks g all h v hv lsv hlv _ this, rfl, by simp [GfaLink.side], rfl, rfl⟩
+  -- case analysis on the order of the two node ids and on the sides
+  rcases Nat.lt_trichotomy u v with hlt | heq | hgt
+  · cases d with
+    | L => exact fromU.1 rfl (by omega)
+    | R => exact fromU.2 rfl (Or.inl hlt)
+  · subst heq
+    cases d with
+    | L => exact fromU.1 rfl (by omega)
+    | R =>
+      cases s with
+      | R => exact fromU.2 rfl (Or.inr ⟨rfl, rfl⟩)
+      | L => exact fromV.1 rfl (by omega)
+  · cases s with
+    | L => exact fromV.1 rfl (by omega)
+    | R => exact fromV.2 rfl (Or.inl hgt)
+
+/-- one `S` record per node, in order, with the node's sequence (by construction of `write_gfa`) -/
+theorem gfa_segment (g : G D) (id : Nat) (txt : String) (h : nodeToGfa g id = some txt) :
+    ∃ nd ls, g.nodes[id]? = some nd ∧ nodeLinks g id = some ls ∧
+      txt = s!"S\t{id}\t{seqStr nd.seq}\n" ++ String.join (ls.map (renderLink g.K)) := by
+  unfold nodeToGfa at h
+  cases h1 : g.nodes[id]? with
+  | none => simp [h1] at h
+  | some nd =>
+    cases h2 : nodeLinks g id with
+    | none => simp [h1, h2] at h
+    | some ls =>
+      simp only [h1, h2, Option.some.injEq] at h
+      exact ⟨nd, ls, rfl, rfl, h.symm⟩
+
+end Export
